@@ -18,19 +18,19 @@ def run(ck):
     drv = vlib.build_driver("drv_dist", "dbg")
     t0 = os.path.join(ck.tdir, "all0.ndjson")
     drv_run(ck, drv, ["all", 0, 0, ck.seed], t0)
-    ck.trace("all-pairs-r0", "Trace_Grid", "Trace.cfg", t0, nchunks=32, what="every ordered pair of resolution 0 against BFS")
+    ck.trace("all-pairs-r0", "Trace_Grid", "Trace.cfg", t0, nchunks=16, what="every ordered pair of resolution 0 against BFS")
     t1 = os.path.join(ck.tdir, "all1.ndjson")
     drv_run(ck, drv, ["all", 1, 60 if q else 0, ck.seed], t1)
-    ck.trace("all-targets-r1", "Trace_Grid", "Trace.cfg", t1, nchunks=48,
+    ck.trace("all-targets-r1", "Trace_Grid", "Trace.cfg", t1, nchunks=16,
              what="every target of resolution 1 from %s origins (12 pentagons first) against BFS" % ("60" if q else "all 842"))
     if not q:
         t2 = os.path.join(ck.tdir, "all2.ndjson")
         drv_run(ck, drv, ["all", 2, 96, ck.seed], t2)
-        ck.trace("all-targets-r2", "Trace_Grid", "Trace.cfg", t2, nchunks=48, timeout=3400,
+        ck.trace("all-targets-r2", "Trace_Grid", "Trace.cfg", t2, nchunks=16, timeout=3400,
                  what="every target of resolution 2 from 96 origins (12 pentagons first) against BFS")
     t3 = os.path.join(ck.tdir, "c09.ndjson")
     drv_run(ck, drv, ["c09", ck.tier, ck.seed], t3)
-    ck.trace("strata", "Trace_Grid", "Trace.cfg", t3, nchunks=48, balance=True,
+    ck.trace("strata", "Trace_Grid", "Trace.cfg", t3, nchunks=16, balance=True,
              what="origins inside every pentagon base cell (each leading digit) against far targets up to 8/16/24/40 steps "
                   "at r=1..5(8) (one BFS per origin); pentagon disks / seam / random origins at r=0..15 against their k<=4(6) disks in both directions, "
                   "cellToLocalIj<->localIjToCell round trips, IJ boxes, coordinates up to +-2^31, unit-step chart clause, "
